@@ -3,7 +3,7 @@
 From Coq Require Import String NArith ZArith QArith Bool Arith Lia List Permutation Sorted.
 From GT Require Import Base.UTree Spec.Obs Spec.CompareSpec Model.Reroot Model.Index
      Proofs.IndexBase Proofs.IndexTree Proofs.IndexSplit Proofs.Splits Proofs.USplits
-     Proofs.CompareBase Proofs.CompareTree Proofs.CompareMain Proofs.CompareDomain.
+     Proofs.CompareBase Proofs.CompareTree Proofs.CompareMain Proofs.CompareCor Proofs.CompareDomain.
 Import ListNotations.
 Local Close Scope Q_scope.
 Local Arguments leaves : simpl never.
@@ -188,11 +188,13 @@ Proof.
   - rewrite leaves_node in * by (rewrite K; discriminate).
     apply node_pairs; auto.
     intros e c Hs Zc. rewrite Forall_forall in IH. specialize (IH _ Hs). simpl in IH.
-    apply IH; auto.
-    + apply (children_wf_in _ _ _ Hch Hs).
-    + apply in_split in Hs. destruct Hs as (pre & post & ->). rewrite sub_leaves_split in ND.
-      apply nodup_app_r in ND. now apply nodup_app_l in ND.
-    + intros x Hx. apply I. eapply sub_leaves_in; eauto.
+    assert (Wc : wf_sub c = true) by apply (children_wf_in _ _ _ Hch Hs).
+    assert (NSc' : no_single_sub c = true) by apply (NSc _ _ Hs).
+    assert (Ic : incl (leaves c) all) by (intros x Hx; apply I; eapply sub_leaves_in; eauto).
+    assert (NDc : NoDup (leaves c)).
+    { apply in_split in Hs. destruct Hs as (pre & post & ->). rewrite sub_leaves_split in ND.
+      apply nodup_app_r in ND. apply nodup_app_l in ND. exact ND. }
+    exact (IH Wc NSc' NDc Ic Zc).
 Qed.
 
 Theorem unrooted_pairs t : unrooted t -> ForallOrdPairs (Rsp (leaves t)) (edges t).
@@ -204,11 +206,14 @@ Proof.
   rewrite E in *.
   apply node_pairs; auto.
   - apply incl_refl.
-  - intros e c Hs Zc. apply sub_pairs; auto.
-    + apply (children_wf_in _ _ _ Hch Hs).
-    + apply in_split in Hs. destruct Hs as (pre & post & ->). rewrite sub_leaves_split in ND.
-      apply nodup_app_r in ND. now apply nodup_app_l in ND.
-    + intros x Hx. eapply sub_leaves_in; eauto.
+  - intros e c Hs Zc.
+    assert (Wc : wf_sub c = true) by apply (children_wf_in _ _ _ Hch Hs).
+    assert (NSc' : no_single_sub c = true) by apply (NSc _ _ Hs).
+    assert (Ic : incl (leaves c) (sub_leaves sl)) by (intros x Hx; eapply sub_leaves_in; eauto).
+    assert (NDc : NoDup (leaves c)).
+    { apply in_split in Hs. destruct Hs as (pre & post & ->). rewrite sub_leaves_split in ND.
+      apply nodup_app_r in ND. apply nodup_app_l in ND. exact ND. }
+    exact (sub_pairs _ c Wc NSc' NDc Ic Zc).
 Qed.
 
 Theorem unrooted_dupfree t : unrooted t -> dupfree t.
@@ -240,4 +245,15 @@ Proof.
   - now apply unrooted_dupfree.
   - now apply unrooted_tipflags.
   - now apply unrooted_tipflags.
+Qed.
+
+(** the domain is inhabited: ((a,b),c,d) and (a,b,c,d) *)
+Lemma domain_inhabited : unrooted wit_ref /\ unrooted wit_star /\ Permutation (leaves wit_ref) (leaves wit_star).
+Proof.
+  assert (N : NoDup ["a"; "b"; "c"; "d"]%string).
+  { repeat constructor; simpl; intuition discriminate. }
+  assert (L1 : leaves wit_ref = ["a"; "b"; "c"; "d"]%string) by (vm_compute; reflexivity).
+  assert (L2 : leaves wit_star = ["a"; "b"; "c"; "d"]%string) by (vm_compute; reflexivity).
+  unfold unrooted, good. rewrite L1, L2.
+  repeat split; try exact N; try (vm_compute; reflexivity); try (unfold degree; simpl; lia); try apply Permutation_refl.
 Qed.
